@@ -12,7 +12,7 @@ Usage: tools/collect_seeded.py [ID ...]   (default: every /tmp/mut/C??)"""
 import glob, json, os, re, shutil, subprocess, sys, time
 
 SRC = os.environ.get("SEED_SRC", "/tmp/mut")
-WT = "/tmp/seedverify"
+WT = os.environ.get("SEED_WT", "/tmp/seedverify")
 OUT = "/verif/seeded"
 
 
